@@ -146,6 +146,40 @@ def h_wire(ctx, shape, major, nchars, tagmode, rest_chars=1):
               tree_matches(ctx, out, spec, lambda t: c10.ref_unescape(ctx, t)))
 
 
+def h_wire_long(ctx, major, total):
+    """a file of several kilobytes whose data contains runs of non-ASCII characters around the 4096 / 8192 byte marks (both byte
+    parities), so that some multi-byte character straddles any block boundary a reader may use there"""
+    version = ctx.choice("version", [102, 160] if major == 1 else [203, 220])
+    pretty = ctx.bool("prettyprint")
+    close = ctx.bool("close_elements") if major == 1 else True
+    sym = ctx.str("ch", 1, [(0xA1, 0xFF), (0x20AC, 0x20AC)])
+    run = sym + "\u00e9\u0416\u03a9" * 60 + "x" + "\u00e9\u0416\u20ac" * 60          # 2- and 3-byte characters, parity flipped in the middle
+    line = "Lorem ipsum dolor sit amet 0123456789 "
+    root = ET.Element("OFX")
+    texts = []
+    n_lines = total // 64
+    for i in range(n_lines):
+        near = any([abs(i * 64 - m) < 2500 for m in (4096, 8192, 16384)])
+        t = (run[(i % 7):(i % 7) + 48] if near else (line + "%04d" % i))
+        texts.append(t)
+        ET.SubElement(root, "MEMO").text = t
+    client = OFXClient("http://x", version=version, prettyprint=pretty, close_elements=close)
+    data = client.serialize(FakeOFX(root))
+    hdr, msg = header.parse_header(make_source(data))
+    tb = make_treebuilder(Parser.TreeBuilder, ctx.mode == "sym")
+    out = None
+    try:
+        tb.feed(msg)
+        out = tb.close()
+    except (SyntaxError, AssertionError, IndexError):
+        out = None
+    ctx.check("the library's parser accepts what the library's serializer wrote", out is not None)
+    if out is None:
+        return
+    ctx.check("parsed tree has the same tags, nesting and order, and every leaf text decodes to the original",
+              len(out) == n_lines and ctx.all([c10.ref_unescape(ctx, (out[i].text or "")) == texts[i] for i in range(n_lines)]))
+
+
 def instances_wire(tier, seed, mk):
     full = tier != "quick"
     out = []
@@ -154,4 +188,6 @@ def instances_wire(tier, seed, mk):
         for major in (1, 2):
             mk(f"wire[{sh},v{major}]", "wire", dict(shape=sh, major=major, nchars=2 if not full else [1, 2, 3], tagmode="fixed" if not full else "two", rest_chars=1 if not full else 2),
                max_paths=60000, wall_s=300 if not full else 1500, timeout_ms=20000)
+    for major in (1, 2):
+        mk(f"wire_long[v{major}]", "wire_long", dict(major=major, total=10000 if not full else 20000), max_paths=2000, wall_s=600)
     return out
